@@ -154,6 +154,7 @@ package message
 //@   ensures [too-small-prefix] errors.Is(err, ErrOptionsTooSmall) ==> prefixOK(data, #n0)
 //@   ensures [too-small-ok] errors.Is(err, ErrOptionsTooSmall) ==> rawOK(data, #n0)
 //@   ensures [too-small-cap] errors.Is(err, ErrOptionsTooSmall) ==> cap(old(*options)) == len(old(*options)) + nKept(data, optionDefs, #n0)
+//@   ensures [too-small-full] errors.Is(err, ErrOptionsTooSmall) ==> len(*options) == cap(*options)
 //@   ensures [n-err] err != nil ==> n == -1
 //@   ensures [same-array] (*options)[0:0] == old(*options)[0:0] && cap(*options) == cap(old(*options))
 //@   ensures [fields] err == nil ==> decodedOpts(*options, len(old(*options)), data, optionDefs, #n0)
